@@ -284,7 +284,11 @@ func step(rt *rapid.T, e *env) bool {
 		return e.unavailable(r, from, true, genPresOpts(rt))
 	case "lobby":
 		nick := rapid.SampledFrom(append([]string{"me"}, otherNicks...)).Draw(rt, "lnick")
-		return e.lobbyPresence(nick, rapid.Bool().Draw(rt, "lunavail"), rapid.Bool().Draw(rt, "lself"), genPresOpts(rt))
+		o := genPresOpts(rt)
+		if rapid.IntRange(0, 2).Draw(rt, "lgarble") == 0 {
+			o.garble = rapid.SampledFrom([]string{"aff", "role", "code", "jid"}).Draw(rt, "lgarblekind")
+		}
+		return e.lobbyPresence(nick, rapid.Bool().Draw(rt, "lunavail"), rapid.Bool().Draw(rt, "lself"), o)
 	case "invite":
 		s := inviteSpec{}
 		switch rapid.IntRange(0, 3).Draw(rt, "invfrom") {
